@@ -58,6 +58,15 @@ CHECKS['C13'] = dict(
    text='Axiom-free theorems (coq/props/C13.v): for every number of distinct symbols 2..256 the compressor\'s weight multiset is a complete prefix code of depth <= min(11, log2 n + 2); for every such size, with symbols ranked increasingly, decreasingly and (below 100) with unused symbols interleaved, the decoder\'s table built from the written weights has exactly the compressor\'s code lengths, is complete and maps every table index to the symbol whose code is its prefix; weights above 11 are rejected and only complete codes of depth <= 11 are accepted. Not yet theorems (partial): bit-level literal round trip in 1/4 streams, the <128-byte bound of FSE-compressed descriptions, the canonical table for every valid weight list. Each run compares weight shapes for all sizes (implementation vs model inside Coq), decoder tables for exhaustive small and random direct descriptions and for FSE-compressed descriptions written by the compressor (implementation = extracted model = independent RFC transcription), and literal round trips.',
    note=MODEL_NOTE, design='8 C13')
 
+CHECKS['C03'] = dict(
+   technique='Coq proofs of the memory-safety / range invariants that indexing relies on (window operations for all sequences and chunk sizes, FSE state ranges, block growth, offset history) on the decoder model; malformed-input correspondence of the extracted model with debug and release builds, oracle = no panic, no timeout, decoder reusable',
+   text='Axiom-free theorems (coq/props/C03.v): no operation sequence on the output window faults (all chunk sizes), FSE transitions stay inside the table for every accuracy log and probability, sequence execution keeps the buffer and offset-history invariants for every input, the repeat-offset step never underflows. The overall statement "the model never returns a panic value for any byte string" is NOT yet a theorem (partial); each run therefore pushes structure-aware corruptions of valid frames (14 mutation kinds aimed at block headers, literal headers, jump tables, sequence headers, bitstream tails, descriptor bytes), random byte strings and corrupted dictionaries through eight entry-point programs on debug and release builds of the implementation and on the extracted model: outcome classes must agree, nothing may panic or exceed a deadline, and the same decoder must decode a valid frame afterwards.',
+   note=MODEL_NOTE + ' Memory safety of the real unsafe code is argued through the C04 model, not on machine code; hangs are detected by a deadline, not proved absent.', design='8 C03')
+CHECKS['C09'] = dict(
+   technique='Coq proof that matches into the dictionary are the LZ77 copy on dictionary++output (all boundary alignments, unbounded), that sequence execution with a dictionary equals execution with the content as earlier output, plus reset/selection theorems; correspondence with trained and hand-built dictionaries, oracle = original data, libzstd, RFC execution',
+   text='Axiom-free theorems (coq/props/C09.v): the chunked copy equals the byte-wise LZ77 copy for every length and offset; DecodeBuffer::repeat with a dictionary yields exactly the LZ77 copy on "dictionary content followed by output" for every alignment of the match with the boundary, and whole sequence sections behave as if the content were earlier output; offsets beyond dictionary plus output are rejected and the dictionary is unreachable once the output passed the window; a frame naming an unregistered dictionary is refused for every decoder history; with the dictionary registered the frame starts from its tables, repeat offsets and content; the reset after a dictionary frame equals a new decoder. Each run decodes libzstd frames made with libzstd-trained dictionaries (ids present or absent+forced, three schedules) and hand-built dictionaries with frames reaching every boundary alignment through implementation and extracted model, against the original data, libzstd given the same dictionary and an RFC execution on content++output; missing/wrong dictionaries must be refused; histories mixing dictionaries and plain frames must behave per frame as on a new decoder.',
+   note=MODEL_NOTE + ' libzstd accepts offsets that reach into the header part of a dictionary (its virtual start is the whole dictionary buffer); for must-reject frames the oracle is the RFC execution, not libzstd.', design='8 C09')
+
 NOT_YET = {}
 
 def main():
